@@ -18,3 +18,5 @@ def run(out, sc, tier, seed):
     run_progs(out, sc, "C15", {"gen": "dots", "n": n, "seed": seed, "fields": FIELDS, "maxseg": 4 if tier == "quick" else 5},
               "dots")
     run_harvest(out, sc, "C15")
+    from .common import run_witnesses
+    run_witnesses(out, sc, "C15", fields=FIELDS)
